@@ -75,6 +75,18 @@ type formWalker struct {
 	buf   string              // name of the *TrackedBuffer parameter
 	alias map[string][]string // local variable → receiver fields it derives from
 	where string
+	// tolerant: a statement that is not understood makes the walker give up on this method (clause nodes)
+	// instead of failing the whole run (statement nodes)
+	tolerant bool
+	gaveUp   bool
+}
+
+func (w *formWalker) notUnderstood(format string, a ...any) {
+	if w.tolerant {
+		w.gaveUp = true
+		return
+	}
+	fail(format, a...)
 }
 
 // fieldsIn: receiver fields mentioned in e (node.F…, or through aliases).
@@ -221,6 +233,17 @@ func (w *formWalker) atomCond(e ast.Expr) (fCond, bool) {
 	switch t := e.(type) {
 	case *ast.ParenExpr:
 		return w.atomCond(t.X)
+	case *ast.CallExpr:
+		// node.F.IsEmpty()
+		if sel, ok := t.Fun.(*ast.SelectorExpr); ok && sel.Sel.Name == "IsEmpty" && len(t.Args) == 0 {
+			// node.IsEmpty(): the receiver holds nothing – like a nil receiver
+			if id, isId := sel.X.(*ast.Ident); isId && id.Name == w.recv && len(w.alias[id.Name]) == 0 {
+				return fCond{"*", "zero", ""}, true
+			}
+			if s, ok := subject(sel.X); ok {
+				return fCond{s, "zero", ""}, true
+			}
+		}
 	case *ast.UnaryExpr:
 		if t.Op == token.NOT {
 			if c, ok := w.atomCond(t.X); ok {
@@ -232,6 +255,15 @@ func (w *formWalker) atomCond(e ast.Expr) (fCond, bool) {
 			return fCond{s, "nonzero", ""}, true
 		}
 	case *ast.BinaryExpr:
+		// node == nil : the receiver itself
+		if id, isId := t.X.(*ast.Ident); isId && id.Name == w.recv && len(w.alias[id.Name]) == 0 && isZeroLit(t.Y) {
+			if t.Op == token.EQL {
+				return fCond{"*", "zero", ""}, true
+			}
+			if t.Op == token.NEQ {
+				return fCond{"*", "nonzero", ""}, true
+			}
+		}
 		s, ok := subject(t.X)
 		if !ok {
 			break
@@ -378,7 +410,7 @@ func (w *formWalker) walk(stmts []ast.Stmt, live []*fPath) []*fPath {
 					continue
 				}
 			}
-			fail("%s: statement kind not understood in a Format body: %s", w.where, srcStmt(s))
+			w.notUnderstood("%s: statement kind not understood in a Format body: %s", w.where, srcStmt(s))
 		case *ast.AssignStmt:
 			w.assign(t.Lhs, t.Rhs, nil)
 		case *ast.DeclStmt:
@@ -419,12 +451,12 @@ func (w *formWalker) walk(stmts []ast.Stmt, live []*fPath) []*fPath {
 			live = out
 		case *ast.SwitchStmt:
 			if t.Tag == nil {
-				fail("%s: tagless switch in a Format body", w.where)
+				w.notUnderstood("%s: tagless switch in a Format body", w.where)
 				continue
 			}
 			subj := w.fieldsIn(t.Tag)
 			if len(subj) != 1 {
-				fail("%s: switch tag %s is not one receiver field", w.where, srcText(t.Tag))
+				w.notUnderstood("%s: switch tag %s is not one receiver field", w.where, srcText(t.Tag))
 				continue
 			}
 			var all []string
@@ -498,7 +530,7 @@ func (w *formWalker) walk(stmts []ast.Stmt, live []*fPath) []*fPath {
 		case *ast.ForStmt:
 			w.flat(t.Body, live, nil)
 		default:
-			fail("%s: statement kind not understood in a Format body: %s", w.where, srcStmt(s))
+			w.notUnderstood("%s: statement kind not understood in a Format body: %s", w.where, srcStmt(s))
 		}
 	}
 	return live
@@ -730,13 +762,17 @@ func (fg *formsGrammar) nullable(sym string) bool {
 }
 
 // kvFields reads `&Kind{F: v, …}` into fields + symbol links.
-func (fg *formsGrammar) kvFields(cl *ast.CompositeLit, alt yAlt, where string) (fields []gField, link map[int]string) {
+func (fg *formsGrammar) kvFields(cl *ast.CompositeLit, alt yAlt, where string, decl []sqlField) (fields []gField, link map[int]string) {
 	link = map[int]string{}
-	for _, el := range cl.Elts {
+	for pos, el := range cl.Elts {
 		kv, ok := el.(*ast.KeyValueExpr)
 		if !ok {
-			fail("sql.y %s: positional composite literal of a statement node", where)
-			continue
+			// positional literal: fields in declaration order
+			if pos >= len(decl) {
+				fail("sql.y %s: positional composite literal with more elements than the struct has fields", where)
+				continue
+			}
+			kv = &ast.KeyValueExpr{Key: ast.NewIdent(decl[pos].name), Value: el}
 		}
 		name := kv.Key.(*ast.Ident).Name
 		fields = append(fields, gField{name, fg.zeroOf(kv.Value, alt), actionText(kv.Value)})
@@ -795,11 +831,22 @@ func genSqlForms() {
 			fail("ast.go: statement node type %s (struct with iStatement) not found", must)
 		}
 	}
+	lf.def("stmtKinds", "List String", strList(kinds), "ast.go: the struct types with an `iStatement` method, in declaration order")
+	stmtKindCount := len(kinds)
+	// clause nodes: every other struct type that is an SQLNode (Format + walkSubtree)
+	isStmt := map[string]bool{}
+	for _, k := range kinds {
+		isStmt[k] = true
+	}
+	for _, t := range p.order {
+		if _, isStruct := p.types[t].(*ast.StructType); isStruct && !isStmt[t] && p.hasMethod(t, "Format") && p.hasMethod(t, "walkSubtree") {
+			kinds = append(kinds, t)
+		}
+	}
 	isKind := map[string]bool{}
 	for _, k := range kinds {
 		isKind[k] = true
 	}
-	lf.def("stmtKinds", "List String", strList(kinds), "ast.go: the struct types with an `iStatement` method, in declaration order")
 
 	classOf := func(typ ast.Expr) string {
 		if id, ok := typ.(*ast.Ident); ok {
@@ -828,10 +875,12 @@ func genSqlForms() {
 		rows = append(rows, fmt.Sprintf("(%q, [%s])", k, strings.Join(fs, ", ")))
 	}
 	lf.def("stmtFields", "List (String × List (String × String))", "[\n  "+strings.Join(rows, ",\n  ")+"]",
-		"ast.go: per statement node its fields (name, class) – node: an SQLNode type or a slice/pointer of one; string; bool; other")
+		"ast.go: per statement node and per clause node (struct with Format and walkSubtree) its fields (name, class) – node: an SQLNode type or a slice/pointer of one; string; bool; other")
 
 	// ---- print paths
 	rows = nil
+	var condArgs []string
+	var analysed, notAnalysed []string
 	pathCount := map[string]int{}
 	for _, k := range kinds {
 		fd := p.methods[k]["Format"]
@@ -839,7 +888,7 @@ func genSqlForms() {
 			fail("ast_methods.go: %s has no Format method", k)
 			continue
 		}
-		w := &formWalker{kind: k, alias: map[string][]string{}, where: k + ".Format"}
+		w := &formWalker{kind: k, alias: map[string][]string{}, where: k + ".Format", tolerant: !isStmt[k]}
 		if len(fd.Recv.List[0].Names) == 1 {
 			w.recv = fd.Recv.List[0].Names[0].Name
 		}
@@ -851,11 +900,39 @@ func genSqlForms() {
 			continue
 		}
 		paths := w.walk(fd.Body.List, []*fPath{{}})
+		if w.gaveUp {
+			notAnalysed = append(notAnalysed, k)
+			continue
+		}
+		analysed = append(analysed, k)
+		// `if node == nil { return }`: the path of the nil receiver prints nothing and holds nothing
+		{
+			var keep []*fPath
+			for _, pp := range paths {
+				nilRecv := false
+				var cs []fCond
+				for _, c := range pp.conds {
+					if c.field == "*" {
+						nilRecv = nilRecv || c.rel == "zero"
+						continue
+					}
+					cs = append(cs, c)
+				}
+				pp.conds = cs
+				if !nilRecv {
+					keep = append(keep, pp)
+				}
+			}
+			paths = keep
+		}
 		pathCount[k] = len(paths)
 		for i, pp := range paths {
 			var cs []string
 			for _, c := range pp.conds {
 				cs = append(cs, fmt.Sprintf("(%q, %q, %q)", c.field, c.rel, c.arg))
+				if c.rel == "eq" || c.rel == "notin" {
+					condArgs = append(condArgs, c.arg)
+				}
 			}
 			for _, f := range pp.printed {
 				if f != "*" && fieldClass[k][f] == "" {
@@ -868,8 +945,54 @@ func genSqlForms() {
 	if pathCount["Delete"] < 2 || pathCount["Insert"] < 2 {
 		fail("ast_methods.go: expected at least two print paths for Delete (single-table / multi-table) and Insert (rows / default values), found %d and %d", pathCount["Delete"], pathCount["Insert"])
 	}
+	// the constants the path conditions compare with: (text in the condition, string value)
+	{
+		env := newConstEnv(filepath.Join(sqlDir, "ast.go"))
+		seenC := map[string]bool{}
+		var crow []string
+		for _, c := range condArgs {
+			for _, name := range strings.Split(c, ",") {
+				if name == "" || seenC[name] {
+					continue
+				}
+				seenC[name] = true
+				if strings.HasPrefix(name, "\"") {
+					if v, err := strconv.Unquote(name); err == nil {
+						crow = append(crow, fmt.Sprintf("(%q, %q)", name, v))
+					}
+					continue
+				}
+				v, ok := env.vals[name]
+				if !ok {
+					continue // not a constant of ast.go (a variable, a literal of another kind)
+				}
+				sv, err := strconv.Unquote(v.ExactString())
+				if err != nil {
+					sv = v.ExactString() // integer constants (Limit.Type): their decimal value
+				}
+				crow = append(crow, fmt.Sprintf("(%q, %q)", name, sv))
+			}
+		}
+		{
+			seenA := map[string]bool{}
+			var arow []string
+			for _, c := range condArgs {
+				if !seenA[c] {
+					seenA[c] = true
+					arow = append(arow, fmt.Sprintf("(%q, %s)", c, strList(strings.Split(c, ","))))
+				}
+			}
+			lf.def("condArgLists", "List (String × List String)", "["+strings.Join(arow, ", ")+"]",
+				"the argument of every `eq` / `notin` condition of printPaths split into its constants")
+		}
+		lf.def("condConsts", "List (String × String)", "["+strings.Join(crow, ", ")+"]",
+			"ast.go: the constants the print-path conditions compare fields with – (text in the condition, string value)")
+	}
 	lf.def("printPaths", "List (String × Nat × List (String × String × String) × List String × List String)", "[\n  "+strings.Join(rows, ",\n  ")+"]",
 		"ast_methods.go: per statement node the print paths of Format – (kind, path, conditions (field, rel, arg), receiver fields printed, format strings in order)")
+
+	lf.def("clauseKinds", "List String", strList(analysed[minInt(stmtKindCount, len(analysed)):]), "ast_methods.go: the clause nodes (structs with Format and walkSubtree that are not statements) whose Format method the path analysis understands")
+	lf.def("clauseKindsNotAnalysed", "List String", strList(notAnalysed), "ast_methods.go: clause nodes whose Format method has a shape the path analysis does not understand (no print paths for them)")
 
 	// ---- grammar productions
 	sqlTypeNames = map[string]bool{}
@@ -929,6 +1052,22 @@ func genSqlForms() {
 				}
 				continue
 			}
+			// every composite literal of a node type: `$$ = &Kind{…}`, also nested (`TableExprs{&AliasedTableExpr{…}}`)
+			ast.Inspect(blk, func(n ast.Node) bool {
+				cl, ok := n.(*ast.CompositeLit)
+				if !ok {
+					return true
+				}
+				if id, ok := cl.Type.(*ast.Ident); ok && isKind[id.Name] {
+					fields, link := fg.kvFields(cl, a, where, p.structFields(id.Name))
+					pr := gProd{kind: id.Name, rule: r, alt: i + 1, top: top[r] && isStmt[id.Name], fields: fields}
+					for j, s := range a.syms {
+						pr.syms = append(pr.syms, gSym{s, link[j+1], fg.nullable(s)})
+					}
+					direct[r] = append(direct[r], pr)
+				}
+				return true
+			})
 			// local variables bound to `$n` / `$n.(*Kind)`
 			locals := map[string]int{}
 			localKind := map[string]string{}
@@ -943,21 +1082,6 @@ func genSqlForms() {
 				case *ast.Ident:
 					rhs := as.Rhs[0]
 					if l.Name == "yyVAL" {
-						// `$$ = &Kind{…}` / `$$ = Kind{…}`
-						e := rhs
-						if u, ok := e.(*ast.UnaryExpr); ok && u.Op == token.AND {
-							e = u.X
-						}
-						if cl, ok := e.(*ast.CompositeLit); ok {
-							if id, ok := cl.Type.(*ast.Ident); ok && isKind[id.Name] {
-								fields, link := fg.kvFields(cl, a, where)
-								pr := gProd{kind: id.Name, rule: r, alt: i + 1, top: top[r], fields: fields}
-								for j, s := range a.syms {
-									pr.syms = append(pr.syms, gSym{s, link[j+1], fg.nullable(s)})
-								}
-								direct[r] = append(direct[r], pr)
-							}
-						}
 						// `$$ = x` with x a local bound to `$n`
 						if id, ok := rhs.(*ast.Ident); ok {
 							if n, isLocal := locals[id.Name]; isLocal {
@@ -1076,6 +1200,19 @@ func genSqlForms() {
 		}
 		rows = append(rows, fmt.Sprintf("(%q, %q, %d, %s, [%s], [%s])", q.kind, q.rule, q.alt, boolStr(q.top), strings.Join(ss, ", "), strings.Join(fs, ", ")))
 	}
+	{
+		seenN := map[string]bool{}
+		var names []string
+		for _, q := range prods {
+			for _, f := range q.fields {
+				if _, isConst := fg.consts.vals[f.text]; isConst && !seenN[f.text] {
+					seenN[f.text] = true
+					names = append(names, f.text)
+				}
+			}
+		}
+		lf.def("constNames", "List String", strList(names), "ast.go: the constants that grammar actions assign to node fields (value texts of `productions` that are plain constant names)")
+	}
 	for _, must := range []string{"Select", "Union", "ParenSelect", "Insert", "Update", "Delete"} {
 		if have[must] == 0 {
 			fail("sql.y: no grammar alternative building a %s found", must)
@@ -1083,6 +1220,42 @@ func genSqlForms() {
 	}
 	if have["Delete"] < 3 || have["Insert"] < 3 {
 		fail("sql.y: expected at least three alternatives building a Delete and an Insert, found %d and %d", have["Delete"], have["Insert"])
+	}
+	// ---- literal-class tokens that an alternative reads and its action never mentions
+	{
+		var litTokens []string
+		for _, l := range strings.Split(string(srcB), "\n") {
+			if strings.HasPrefix(l, "%token") && strings.Contains(l, " INTEGRAL") && strings.Contains(l, " ID ") {
+				for _, t := range strings.Fields(l)[1:] {
+					if !strings.HasPrefix(t, "<") && t != "COMMENT_KEYWORD" {
+						litTokens = append(litTokens, t)
+					}
+				}
+			}
+		}
+		if len(litTokens) < 8 {
+			fail("sql.y: the %%token line declaring the lexeme classes (ID … INTEGRAL … LIST_ARG) was not found")
+		}
+		isLit := map[string]bool{}
+		for _, t := range litTokens {
+			isLit[t] = true
+		}
+		lf.def("literalTokens", "List String", strList(litTokens), "sql.y: the tokens that carry a lexeme (identifier, literal, placeholder, comment) – the %token line that declares ID and INTEGRAL")
+		var urows []string
+		for _, r := range g.order {
+			for i, a := range g.rules[r] {
+				for j, sy := range a.syms {
+					if !isLit[sy] || (a.action == "" && j == 0) { // no action: yacc's default `$$ = $1`
+						continue
+					}
+					if !regexp.MustCompile(`\$`+strconv.Itoa(j+1)+`\b`).MatchString(a.action) {
+						urows = append(urows, fmt.Sprintf("(%q, %d, %q)", r, i+1, sy))
+					}
+				}
+			}
+		}
+		lf.def("unusedLiteralTokens", "List (String × Nat × String)", "["+strings.Join(urows, ", ")+"]",
+			"sql.y: (rule, alternative, token) – a lexeme-carrying token on the right-hand side that the alternative's action never mentions (`$n`): its text is dropped by the parser")
 	}
 	lf.def("productions", "List (String × String × Nat × Bool × List (String × String × Bool) × List (String × String × String))", "[\n  "+strings.Join(rows, ",\n  ")+"]",
 		"sql.y: the alternatives that build a statement node – (kind, rule, alternative, rule is a statement of `command`, right-hand side (symbol, field it fills, may be empty), assigned fields (field, zeroness of the value: nonzero|maybe|zero, value text))")
@@ -1095,4 +1268,11 @@ func indexOfStr(xs []string, x string) int {
 		}
 	}
 	return len(xs)
+}
+
+func minInt(a, b int) int {
+	if a < b {
+		return a
+	}
+	return b
 }
